@@ -398,8 +398,9 @@ theorem receive_exit_unregisters (t : Table) (h : Inv t) (chans : List String) (
     ∀ s ∈ (receiveCall t chans fn during e).subs, s.id = t.cnt + 1 → s.active = false := by
   intro s hs hid
   have hinv : Inv (run (step t (.subscribe chans fn)) during) := inv_run _ (inv_step t h _) during
+  unfold receiveCall at hs
   generalize run (step t (.subscribe chans fn)) during = t2 at hs hinv
-  simp only [receiveCall, step] at hs
+  simp only [step] at hs
   split at hs
   · simp only [upd, List.mem_map] at hs
     obtain ⟨s0, hs0, rfl⟩ := hs
@@ -408,7 +409,6 @@ theorem receive_exit_unregisters (t : Table) (h : Inv t) (chans : List String) (
         split at hid <;> simpa [Sub.remove] using hid
       simp [ha, hid0, Sub.remove]
     · simp [ha] at hid ⊢
-      simpa using ha
   · rename_i hlive
     cases ha : s.active
     · rfl
